@@ -760,14 +760,16 @@ inductive Kind where
   | float | str
   | strSub     -- instance of a proper subclass of `str` (StrEnum)
   | list | tuple | set | dict
-  | serObj     -- instance of a `SubclassJSONSerializer` subclass
+  | serObj     -- instance of a `SubclassJSONSerializer` subclass (the class itself not registered)
+  | serRegObj  -- instance of a `SubclassJSONSerializer` subclass that is ALSO registered in the type registry
   | regObj     -- instance of a class that is itself registered in the type registry (exact type)
   | regSubObj  -- instance of an unregistered subclass of a registered class
   | other      -- anything else
   deriving Repr, DecidableEq
 
 def Kind.all : List Kind :=
-  [.none, .bool, .int, .intSub, .float, .str, .strSub, .list, .tuple, .set, .dict, .serObj, .regObj, .regSubObj, .other]
+  [.none, .bool, .int, .intSub, .float, .str, .strSub, .list, .tuple, .set, .dict, .serObj, .serRegObj, .regObj, .regSubObj,
+   .other]
 
 /-- `isinstance(x, t)` -/
 def instOf : Kind → PyType → Bool
@@ -784,6 +786,7 @@ def instOf : Kind → PyType → Bool
   | .set, .set => true
   | .dict, .dict => true
   | .serObj, .serializer => true
+  | .serRegObj, .serializer => true
   | _, _ => false
 
 /-- `type(x) is t` -/
@@ -819,7 +822,7 @@ inductive Test where
 def Test.holds (l : Lookup) : Test → Kind → Bool
   | .isinstance ts, k => ts.any (instOf k)
   | .typeIs ts, k => ts.any (exactOf k)
-  | .registered, k => k == .regObj || (l != .exact && k == .regSubObj)
+  | .registered, k => k == .regObj || k == .serRegObj || (l != .exact && k == .regSubObj)
   | .always, _ => true
   | .and a b, k => a.holds l k && b.holds l k
   | .or a b, k => a.holds l k || b.holds l k
@@ -967,7 +970,7 @@ def toJsonWith (sel : Kind → Action) (tag : List NamePart) (exact : Bool) (env
         | .error e => .error e)
      | a => offAction a)
   | .obj c fs =>
-    (match sel .serObj with
+    (match sel (if regExact env c then .serRegObj else .serObj) with
      | .method =>
        (match composeTag tag c with
         | none => .error .stuck
@@ -1088,7 +1091,7 @@ from a serialised well-formed value). -/
 
 def goodTo (sel : Kind → Action) : Bool :=
   sel .none == .self && sel .bool == .self && sel .int == .self && sel .float == .self && sel .str == .self &&
-  sel .list == .mapRec && sel .serObj == .method && sel .regObj == .registry
+  sel .list == .mapRec && sel .serObj == .method && sel .serRegObj == .method && sel .regObj == .registry
 
 def goodFrom (sel : Kind → Action) : Bool :=
   sel .none == .self && sel .bool == .self && sel .int == .self && sel .float == .self && sel .str == .self &&
